@@ -3,6 +3,8 @@ package main
 import (
 	"bytes"
 	"io"
+	"os"
+	"path/filepath"
 	"strings"
 	"time"
 
@@ -651,5 +653,23 @@ func genC01(cs *CaseSet, rng *Rng, tier string, dir string) {
 			tf = append(tf, rng.Bytes(3)...)
 		}
 		cs.Add(Case{Kind: "transfer-preamble", Ops: []Op{mkOp(2, "transfer", []byte{18}, tf)}, Obs: [][][]byte{decodeGo(18, tf)}, NonTrivial: true})
+	}
+
+	// ---- records as the SERVER builds them: the file-list entries GetFileNameList produces for names of every kind
+	// (ASCII, Mac-Roman-representable, not representable, long) must frame themselves - the name-size prefix covers
+	// exactly the name bytes that follow
+	{
+		ld := filepath.Join(dir, "listing")
+		must(os.MkdirAll(filepath.Join(ld, "na\u00efve folder"), 0755))
+		for i, n := range []string{"plain.txt", "caf\u00e9.txt", "\u00fcber \u00e5ngstr\u00f6m.sit", "\u65e5\u672c\u8a9e.txt", strings.Repeat("n", 200) + ".bin", "mixed \u00e9 \u65e5.dat", "x"} {
+			must(os.WriteFile(filepath.Join(ld, n), bytes.Repeat([]byte{byte(i)}, i*37), 0644))
+		}
+		fields, err := hotline.GetFileNameList(ld, nil)
+		must(err)
+		for _, f := range fields {
+			raw := append([]byte{}, f.Data...)
+			cs.Add(Case{Kind: "server-built-file-list-entry", Ops: []Op{mkOp(5, "server-built", []byte{4}, raw)},
+				Obs: [][][]byte{decodeGo(4, raw)}, NonTrivial: true})
+		}
 	}
 }
